@@ -41,6 +41,7 @@ Qed.
 
 (* the rewritten expression means in DuckDB what the original means in Snowflake - value AND type - for every
    environment and every nesting of the constructs, on the supported domain *)
+Local Opaque add_months Z.mul Z.div Z.modulo Z.quot.
 Theorem rewrite_correct_partial_l : forall en e, supported en e = true -> sem_duck en (rewrite e) = sem_sf en e.
 Proof.
   intros en e. induction e as [v|i|a IHa b IHb|a IHa b IHb|a IHa b IHb|a IHa b IHb|a IHa b IHb|a IHa b IHb|a IHa b IHb|a IHa|a IHa
@@ -55,7 +56,7 @@ Proof.
     repeat (apply andb_true_iff in S; destruct S as [S ?]). cbn. rewrite (IHa S). apply to_decimal_same.
     destruct (sem_sf en a) as [[| | u s0| | | u s0| | | ]|]; auto. apply Bool.eqb_prop. assumption.
   - (* DATEADD *)
-    repeat (apply andb_true_iff in S; destruct S as [S ?]). rename H into Hv. rename H0 into Hq. rename H1 into Ht. rename H2 into Sd.
+    repeat (apply andb_true_iff in S; destruct S as [S ?]). rename H into Hv. rename H0 into Ht. rename H1 into Sd.
     apply negb_true_iff in Ht. cbn [rewrite]. rewrite Ht.
     assert (En := IHn S). assert (Ed := IHd Sd).
     destruct u; try discriminate;
@@ -64,7 +65,7 @@ Proof.
       cbn [to_us to_date_v shift_days]; rewrite ?Z.mul_1_l; try reflexivity;
       try (exfalso; eapply cast_date_not_ts; [exact C|exact Es]);
       try (cbn [orb andb] in Hv; discriminate);
-      try (f_equal; f_equal; first [apply (shift_us_date UDay k dn) | apply (shift_us_date UDay (7 * k) dn) | apply (shift_us_date UMonth k dn) | apply (shift_us_date UYear k dn)]; reflexivity).
+      try (f_equal; f_equal; first [apply (shift_us_date UDay k dn) | apply (shift_us_date UDay (7 * k) dn) | apply (shift_us_date UMonth k dn) | apply (shift_us_date UMonth (3 * k) dn) | apply (shift_us_date UYear k dn)]; reflexivity).
   - (* DATEDIFF *)
     repeat (apply andb_true_iff in S; destruct S as [S ?]). rename H into Hw. apply negb_true_iff in H0. apply negb_true_iff in H1.
     cbn [rewrite]. rewrite H0, H1. cbn [sem_duck sem_sf]. rewrite (IHa S), (IHb H2).
@@ -74,12 +75,11 @@ Proof.
       first [ apply week_same_side; apply Bool.eqb_prop in Hw; exact Hw
             | apply andb_true_iff in Hw; destruct Hw as [P Q]; rewrite !Z.quot_div_nonneg by (try lia; reflexivity); reflexivity ].
 Qed.
+Local Transparent add_months Z.mul Z.div Z.modulo Z.quot.
+
 
 (* ---- outside the supported domain the rewrite is wrong (witnesses = known findings) ---- *)
 Definition dlit (y m d : Z) : expr := ECastDate (ELit (VDateText (days_from_civil y m d))).
-
-Lemma quarter_refuted_l : exists en e, sem_duck en (rewrite e) <> sem_sf en e.
-Proof. exists [], (EDateAdd UQuarter (ELit (VInt 1)) (dlit 2021 1 31)). vm_compute. discriminate. Qed.
 
 (* DATEADD on a DATE column (not a syntactic cast) returns a TIMESTAMP *)
 Lemma dateadd_column_type_refuted_l : exists en e, sem_sf en e = Ok (VDate 18293) /\ sem_duck en (rewrite e) = Ok (VTs (18293 * day_us)).
@@ -102,13 +102,19 @@ Qed.
 
 (* the civil calendar round-trips on every day of 1900-01-01 .. 2100-12-31 (finite domain, decided by the kernel) *)
 Definition cal_ok (z : Z) : bool := let '(y, m, d) := civil_from_days z in (days_from_civil y m d =? z) && (1 <=? m) && (m <=? 12) && (1 <=? d) && (d <=? month_len y m).
-Definition cal_range : list Z := map (fun n => Z.of_nat n - 25567) (seq 0 (Z.to_nat 73414)).
+Fixpoint zrange (n : nat) (a : Z) : list Z := match n with O => [] | S m => a :: zrange m (a + 1) end.
+Lemma in_zrange n : forall a z, a <= z < a + Z.of_nat n -> In z (zrange n a).
+Proof.
+  induction n as [|n IH]; intros a z H; [lia|]. cbn [zrange]. destruct (Z.eq_dec a z) as [->|N]; [left; reflexivity|].
+  right. apply IH. lia.
+Qed.
+Definition cal_range : list Z := zrange (Z.to_nat 73414) (-25567).
 Lemma cal_range_ok : forallb cal_ok cal_range = true.
 Proof. vm_compute. reflexivity. Qed.
 Theorem calendar_roundtrip_range_l : forall z, -25567 <= z < 47847 -> cal_ok z = true.
 Proof.
   intros z H. pose proof cal_range_ok as F. rewrite forallb_forall in F. apply F. unfold cal_range.
-  apply in_map_iff. exists (Z.to_nat (z + 25567)). split; [lia|]. apply in_seq. lia.
+  apply in_zrange. rewrite Z2Nat.id by lia. lia.
 Qed.
 
 Definition ex_expr : expr :=
